@@ -78,3 +78,7 @@ Theorem optimizer_passthrough {G S D} (o : inner_opt G S D) (g : G) (s : S) (d :
   i_param_groups (dp_set_param_groups o g) = g /\ i_state (dp_set_state o s) = s /\ i_defaults (dp_set_defaults o d) = d /\
   i_state (dp_set_param_groups o g) = i_state o /\ i_defaults (dp_set_param_groups o g) = i_defaults o.
 Proof. repeat split. Qed.
+
+(* ghost-mode wrapping leaves every attribute of the caller's criterion as it was (there is nothing for to_standard_module to restore) *)
+Theorem criterion_untouched {V} (own : pystr -> V) (c : list (pystr * V)) : crit_after_wrap own c = c.
+Proof. reflexivity. Qed.
